@@ -2,13 +2,15 @@
 package main
 
 import (
+	"bufio"
+	"bytes"
 	"encoding/json"
 	"fmt"
 	"os"
-	"runtime"
-	"runtime/pprof"
+	"os/exec"
+	"sort"
+	"strconv"
 	"sync"
-	"sync/atomic"
 	"time"
 
 	"verif/mc/ev"
@@ -22,163 +24,291 @@ type Replay struct {
 
 type group struct {
 	name string
-	run  func(r *ev.Run, g *gstat)
+	run  func(r *sink, g *gstat)
 }
 
 type gstat struct {
-	name  string
-	cases int64
-	bytes int64
-	rawU8 int64 // bodies that carry raw invalid UTF-8 bytes inside strings (accepted by encoding/json; counted)
+	Cases int64 `json:"cases"`
+	Bytes int64 `json:"bytes"`
+	RawU8 int64 `json:"raw_invalid_utf8"` // bodies that carry raw invalid UTF-8 bytes inside strings (accepted by encoding/json; counted)
 }
 
 func (g *gstat) add(body []byte) {
-	atomic.AddInt64(&g.cases, 1)
-	atomic.AddInt64(&g.bytes, int64(len(body)))
+	g.Cases++
+	g.Bytes += int64(len(body))
 }
 
-// the reader prints debug lines (fmt.Println of queries, "Checking ...") on stdout: keep VIOLATION lines clean.
-func quietStdout() (restore func()) {
-	old := os.Stdout
-	null, err := os.OpenFile(os.DevNull, os.O_WRONLY, 0)
-	if err != nil {
-		return func() {}
-	}
-	os.Stdout = null
-	return func() { os.Stdout = old }
-}
-
-// parallel runs fn over items on all cores.
-func parallel[T any](items []T, fn func(T)) {
-	n := runtime.GOMAXPROCS(0)
-	var wg sync.WaitGroup
-	ch := make(chan T, 256)
-	for i := 0; i < n; i++ {
-		wg.Add(1)
-		go func() {
-			defer wg.Done()
-			for it := range ch {
-				fn(it)
-			}
-		}()
-	}
-	for _, it := range items {
-		ch <- it
-	}
-	close(ch)
-	wg.Wait()
-}
-
-// Violations are queued while reader code is running (it prints debug lines on stdout, some without a newline)
-// and reported between groups, when stdout is ours again.
 type pendingV struct {
-	class, what string
-	replay      Replay
+	Class  string `json:"class"`
+	What   string `json:"what"`
+	Replay Replay `json:"replay"`
 }
 
-var (
-	pendMu  sync.Mutex
-	pending []pendingV
-)
+// sink collects what one worker observed; the parent merges the sinks of all shards into the evidence.
+type sink struct {
+	thorough bool
+	shard    int
+	nshards  int
+	mu       sync.Mutex
+	distinct map[string]struct{}
+	Outcomes map[string]int64 `json:"outcomes"`
+	Viol     []pendingV       `json:"violations"`
+	Samples  []any            `json:"samples"`
+	Distinct int              `json:"distinct"`
+	Stat     gstat            `json:"stat"`
+	Expired  bool             `json:"expired"`
+	deadline time.Time
+	maxRows  map[string]int
+}
 
-func violate(r *ev.Run, group string, c any, b *Bad) {
+func (s *sink) Thorough() bool { return s.thorough }
+func (s *sink) Distinct_(k string) {
+	s.distinct[k] = struct{}{}
+}
+func (s *sink) Outcome(k string) { s.Outcomes[k]++ }
+func (s *sink) Sample(x any) {
+	if len(s.Samples) < 1 && s.shard == 0 {
+		s.Samples = append(s.Samples, x)
+	}
+}
+
+// debugBody prints the body on stderr when C15_DEBUG is set (used with --replay).
+func debugBody(b []byte) {
+	if os.Getenv("C15_DEBUG") != "" {
+		fmt.Fprintf(os.Stderr, "BODY: %s\n", b)
+	}
+}
+
+func violate(r *sink, group string, c any, b *Bad) {
 	raw, _ := json.Marshal(c)
-	pendMu.Lock()
-	if len(pending) < 5000 {
-		pending = append(pending, pendingV{b.Class, b.What, Replay{Group: group, Case: raw}})
+	// keep a few per class: the parent dedupes anyway
+	n := 0
+	for _, v := range r.Viol {
+		if v.Class == b.Class {
+			n++
+		}
 	}
-	pendMu.Unlock()
+	if n < 3 {
+		r.Viol = append(r.Viol, pendingV{b.Class, b.What, Replay{Group: group, Case: raw}})
+	}
 }
 
-var realStdout = os.Stdout
-
-func flushViolations(r *ev.Run) {
-	pendMu.Lock()
-	defer pendMu.Unlock()
-	cur := os.Stdout
-	os.Stdout = realStdout
-	for _, p := range pending {
-		r.Violate(p.class, p.what, p.replay)
+// parallel: inside a worker process the cases of this shard run one after the other (the parallelism is across
+// worker processes: the participle parser built on every request makes in-process threads contend on the heap).
+func parallel[T any](r *sink, items []T, fn func(T)) {
+	for i, it := range items {
+		if i%r.nshards != r.shard {
+			continue
+		}
+		if i%64 == 0 && time.Now().After(r.deadline) {
+			r.Expired = true
+			return
+		}
+		fn(it)
 	}
-	pending = nil
-	os.Stdout = cur
 }
+
+func groupByName(thorough bool, name string) *group {
+	s := &sink{thorough: thorough}
+	for _, g := range allGroups(s) {
+		if g.name == name {
+			return &g
+		}
+	}
+	return nil
+}
+
+// ---- worker ---------------------------------------------------------------------------------------------------------
+
+func workerMain(args []string) {
+	// the reader prints debug lines on stdout; the result goes to the real stdout at the very end
+	real := os.Stdout
+	os.Stdout, _ = os.OpenFile(os.DevNull, os.O_WRONLY, 0)
+	name := args[0]
+	shard, _ := strconv.Atoi(args[1])
+	nshards, _ := strconv.Atoi(args[2])
+	thorough := args[3] == "thorough"
+	budget, _ := strconv.ParseFloat(args[4], 64)
+	s := &sink{thorough: thorough, shard: shard, nshards: nshards, distinct: map[string]struct{}{}, Outcomes: map[string]int64{},
+		deadline: time.Now().Add(time.Duration(budget * float64(time.Second)))}
+	var g *group
+	for _, x := range allGroups(s) {
+		if x.name == name {
+			x := x
+			g = &x
+		}
+	}
+	if g == nil {
+		ev.Fatal("worker: unknown group %s", name)
+	}
+	if len(args) > 5 { // replay of one case
+		var rp Replay
+		b, err := os.ReadFile(args[5])
+		if err != nil || json.Unmarshal(b, &rp) != nil {
+			ev.Fatal("worker: bad replay file")
+		}
+		s.nshards, s.shard = 1, 0
+		if !replayCase(s, rp) {
+			ev.Fatal("replay: unknown group %q", rp.Group)
+		}
+	} else {
+		g.run(s, &s.Stat)
+	}
+	s.Distinct = len(s.distinct)
+	w := bufio.NewWriter(real)
+	json.NewEncoder(w).Encode(s)
+	w.Flush()
+}
+
+func spawnWorker(args ...string) (*sink, error) {
+	cmd := exec.Command(os.Args[0], append([]string{"--worker"}, args...)...)
+	cmd.Env = append(os.Environ(), "GOMAXPROCS=2")
+	var out, errb bytes.Buffer
+	cmd.Stdout = &out
+	cmd.Stderr = &errb
+	if err := cmd.Run(); err != nil {
+		e := errb.String()
+		if len(e) > 3000 {
+			e = e[len(e)-3000:]
+		}
+		return nil, fmt.Errorf("%v: %s", err, e)
+	}
+	if os.Getenv("C15_DEBUG") != "" {
+		os.Stderr.Write(errb.Bytes())
+	}
+	var s sink
+	if err := json.Unmarshal(out.Bytes(), &s); err != nil {
+		return nil, fmt.Errorf("bad worker output: %v", err)
+	}
+	return &s, nil
+}
+
+// ---- parent ---------------------------------------------------------------------------------------------------------
 
 func main() {
+	if len(os.Args) > 1 && os.Args[1] == "--worker" {
+		workerMain(os.Args[2:])
+		return
+	}
 	r := ev.Start("C15", "model_checking", 75*time.Second, 15*time.Minute)
-	r.Rule = "every scripted result set of the bounded space is pushed through the real encoder; the concatenated chunks must be exactly one JSON value (encoding/json Decoder, no trailing data) of the endpoint's schema whose content equals the scripted rows. A case is distinct by (endpoint, series sizes, fingerprints, batch composition incl. empty batches, EOF sentinel) resp. (endpoint, position, hostile atom)"
+	r.Rule = "every scripted result set of the bounded space is pushed through the real encoder; the concatenated chunks must be exactly one JSON value (encoding/json Decoder, no trailing data) of the endpoint's schema whose content equals the scripted rows. A case is distinct by (endpoint, series sizes, fingerprints, batch composition incl. empty batches, EOF sentinel) resp. (endpoint, position, hostile atom / number)"
 	r.Assumptions = []string{
 		"rows of one series are contiguous in the row sequence (ORDER BY fingerprint of the final SQL / grouping of ResponseOptimizerPlanner); the 3000-entry flush that breaks this is exercised through the real pipeline",
 		"a string 'round-trips' when the decoded value equals the original with every byte that is not valid UTF-8 replaced by U+FFFD (what encoding/json itself does); raw invalid bytes inside a JSON string are accepted by encoding/json and only counted",
 		"timestamps of matrix samples lie on the millisecond grid (from is whole seconds, step is milliseconds); instant-vector timestamps on whole seconds",
-		"mid-stream database errors are out of scope (no result row); a panic inside an encoder goroutine would end the run with exit 2 (harness failure), not with a verdict",
+		"mid-stream database errors are out of scope (no result row); a worker that dies (panic inside an encoder goroutine) ends the run with exit 2 (harness failure), not with a verdict",
+		"Tail runs on an instrumented copy of queryRangeService.go in which only the ticker period literal is replaced (1 s -> 1 ms), see prepare.sh",
 	}
-	restore := quietStdout()
-	defer restore()
-	if pf := os.Getenv("C15_PROF"); pf != "" {
-		f, _ := os.Create(pf)
-		pprof.StartCPUProfile(f)
-		defer pprof.StopCPUProfile()
-		go func() { time.Sleep(20 * time.Second); pprof.StopCPUProfile(); f.Close(); os.Exit(3) }()
+	tier := "quick"
+	if r.Thorough() {
+		tier = "thorough"
 	}
-	if os.Getenv("C15_BENCH") != "" {
-		var cases []*QRCase
-		structCases("range_streams", 3, func(c *QRCase) { cases = append(cases, c) })
-		t0 := time.Now()
-		for _, c := range cases[:500] {
-			runQR(c)
-		}
-		fmt.Fprintln(os.Stderr, "sequential 500:", time.Since(t0))
-		t0 = time.Now()
-		parallel(cases[:1600], func(c *QRCase) { runQR(c) })
-		fmt.Fprintln(os.Stderr, "parallel 1600:", time.Since(t0))
-		os.Exit(3)
-	}
-	groups := allGroups(r)
 	if r.Replay != "" {
-		replay(r, groups)
-		restoreAndFinish(r, restore)
-	}
-	stats := map[string]any{}
-	for _, g := range groups {
-		if r.Expired() {
-			break
+		b, err := os.ReadFile(r.Replay)
+		if err != nil {
+			ev.Fatal("replay: %v", err)
 		}
-		st := &gstat{name: g.name}
+		var f struct{ Replay Replay }
+		if err := json.Unmarshal(b, &f); err != nil {
+			ev.Fatal("replay: %v", err)
+		}
+		tmp, _ := os.CreateTemp(os.Getenv("VERIF_SCRATCH"), "c15replay-*.json")
+		rb, _ := json.Marshal(f.Replay)
+		tmp.Write(rb)
+		tmp.Close()
+		defer os.Remove(tmp.Name())
+		first := allGroups(&sink{thorough: r.Thorough()})[0].name
+		s, err := spawnWorker(first, "0", "1", tier, "600", tmp.Name())
+		if err != nil {
+			ev.Fatal("replay worker: %v", err)
+		}
+		for _, v := range s.Viol {
+			r.Violate(v.Class, v.What, v.Replay)
+		}
+		r.AddEval(1)
+		fmt.Printf("replay: %d violation(s)\n", r.Violations())
+		r.Finish()
+	}
+	const nshards = 16
+	stats := map[string]any{}
+	cfg := &sink{thorough: r.Thorough()}
+	groups := allGroups(cfg)
+	r.Extra["max_rows"] = cfg.maxRows
+	for _, g := range groups {
+		remaining := time.Until(r.Deadline).Seconds() - 3
+		if remaining < 1 {
+			r.Cap("group " + g.name + " not started (deadline)")
+			continue
+		}
 		t0 := time.Now()
-		g.run(r, st)
-		flushViolations(r)
-		stats[g.name] = map[string]any{"cases": st.cases, "bytes": st.bytes, "bodies_with_raw_invalid_utf8": st.rawU8, "wall_s": time.Since(t0).Seconds()}
-		r.AddEval(st.cases)
-		r.TracesValidated += st.cases
-		r.States += st.cases
-		r.Transitions += st.bytes
+		sinks := make([]*sink, nshards)
+		var wg sync.WaitGroup
+		var werr error
+		var mu sync.Mutex
+		for sh := 0; sh < nshards; sh++ {
+			wg.Add(1)
+			go func(sh int) {
+				defer wg.Done()
+				s, err := spawnWorker(g.name, strconv.Itoa(sh), strconv.Itoa(nshards), tier, fmt.Sprintf("%.1f", remaining))
+				mu.Lock()
+				defer mu.Unlock()
+				if err != nil {
+					werr = err
+					return
+				}
+				sinks[sh] = s
+			}(sh)
+		}
+		wg.Wait()
+		if werr != nil {
+			ev.Fatal("worker of group %s died: %v", g.name, werr)
+		}
+		var tot gstat
+		distinct := 0
+		expired := false
+		var viol []pendingV
+		for sh, s := range sinks {
+			tot.Cases += s.Stat.Cases
+			tot.Bytes += s.Stat.Bytes
+			tot.RawU8 += s.Stat.RawU8
+			expired = expired || s.Expired
+			for i := 0; i < s.Distinct; i++ {
+				r.Distinct(g.name + "#" + strconv.Itoa(sh) + "#" + strconv.Itoa(i))
+			}
+			distinct += s.Distinct
+			keys := make([]string, 0, len(s.Outcomes))
+			for k := range s.Outcomes {
+				keys = append(keys, k)
+			}
+			sort.Strings(keys)
+			for _, k := range keys {
+				for i := int64(0); i < s.Outcomes[k]; i++ {
+					r.Outcome(k)
+				}
+			}
+			for _, x := range s.Samples {
+				r.Sample(x)
+			}
+			viol = append(viol, s.Viol...)
+		}
+		sort.SliceStable(viol, func(i, j int) bool { return viol[i].Class < viol[j].Class })
+		perClass := map[string]int{}
+		for _, v := range viol {
+			if perClass[v.Class] < 2 {
+				r.Violate(v.Class, v.What, v.Replay)
+			}
+			perClass[v.Class]++
+		}
+		if expired {
+			r.Cap("group " + g.name + " cut by the deadline")
+		}
+		stats[g.name] = map[string]any{"cases": tot.Cases, "distinct_cases": distinct, "bytes": tot.Bytes, "bodies_with_raw_invalid_utf8": tot.RawU8, "wall_s": time.Since(t0).Seconds()}
+		r.AddEval(tot.Cases)
+		r.TracesValidated += tot.Cases
+		r.States += tot.Cases
+		r.Transitions += tot.Bytes
 	}
 	r.Extra["groups"] = stats
 	r.Extra["transitions_are"] = "bytes of response bodies parsed"
-	restoreAndFinish(r, restore)
-}
-
-func restoreAndFinish(r *ev.Run, restore func()) {
-	restore()
-	os.Stdout = realStdout
 	r.Finish()
-}
-
-func replay(r *ev.Run, groups []group) {
-	b, err := os.ReadFile(r.Replay)
-	if err != nil {
-		ev.Fatal("replay: %v", err)
-	}
-	var f struct{ Replay Replay }
-	if err := json.Unmarshal(b, &f); err != nil {
-		ev.Fatal("replay: %v", err)
-	}
-	if !replayCase(r, f.Replay) {
-		ev.Fatal("replay: unknown group %q", f.Replay.Group)
-	}
-	r.AddEval(1)
-	flushViolations(r)
-	os.Stdout = realStdout
-	fmt.Printf("replay: %d violation(s)\n", r.Violations())
 }
